@@ -54,12 +54,12 @@ type FsOp struct {
 
 // FsFault makes the nth operation of a kind (optionally restricted to paths with a suffix) fail.
 type FsFault struct {
-	Kind   string // create | write | close | rename | writefile | remove
-	Suffix string
-	Nth    int    // 1-based among matching operations
-	Mode   string // "error" | "short" (write: half the bytes then error) | "enospc"
+	Kind   string `json:"kind"` // create | write | close | rename | writefile | remove
+	Suffix string `json:"suffix,omitempty"`
+	Nth    int    `json:"nth"`  // 1-based among matching operations
+	Mode   string `json:"mode"` // "error" | "short" (write: half the bytes then error) | "enospc"
 	seen   int
-	Fired  bool
+	Fired  bool `json:"-"`
 }
 
 func newFS(k *Kernel) *FS {
